@@ -497,6 +497,17 @@ fn hist_of(v: &serde_json::Value) -> Vec<IOp> {
 }
 
 fn recheck(c: &Case) -> Vec<Violation> {
+    if let Some(d) = c.cfg.get("parallel_ids").and_then(|x| x.as_u64()) {
+        let wreal = std::path::Path::new("/verif/harness-par-real/target/verif/wreal");
+        if let Ok(o) = std::process::Command::new(wreal).arg("ids").arg(d.to_string()).output() {
+            if let Ok(j) = serde_json::from_str::<serde_json::Value>(String::from_utf8_lossy(&o.stdout).trim()) {
+                if j["verdict"] == "diff" {
+                    return vec![Violation::new("C17", "parallel-iterator-content:funcs", j["detail"].as_str().unwrap_or("").to_string(), c)];
+                }
+            }
+        }
+        return vec![];
+    }
     let s = IdSubject::of(&c.coords);
     let h = hist_of(&c.cfg["history"]);
     match replay(&s, &h) {
@@ -538,6 +549,32 @@ pub fn run(args: &Args) -> i32 {
             let c = Case { family: "ids".into(), coords: coll.to_string(), wasm: vec![], cfg: json!({"history": hist_json(&f.hist)}) };
             viol.push(Violation::new("C17", f.finding.sig, f.finding.detail, &c));
         }
+    }
+    // the parallel build exposes parallel iterators over the function collection: same histories,
+    // explored by `wreal ids` (walrus --features parallel on the real rayon-core)
+    let wreal = args.verif.join("harness-par-real/target/verif/wreal");
+    if wreal.exists() {
+        let pdepth = if args.tier == Tier::Quick { 8 } else { 10 };
+        match std::process::Command::new(&wreal).arg("ids").arg(pdepth.to_string()).output() {
+            Ok(o) => {
+                let line = String::from_utf8_lossy(&o.stdout).to_string();
+                match serde_json::from_str::<serde_json::Value>(line.trim()) {
+                    Ok(j) => {
+                        ev.states += j["states"].as_u64().unwrap_or(0);
+                        ev.evaluations += j["states"].as_u64().unwrap_or(0);
+                        ev.extra.insert("parallel_iterators".into(), j.clone());
+                        if j["verdict"] == "diff" {
+                            let c = Case { family: "ids".into(), coords: "funcs (parallel build)".into(), wasm: vec![], cfg: json!({"parallel_ids": pdepth}) };
+                            viol.push(Violation::new("C17", "parallel-iterator-content:funcs", j["detail"].as_str().unwrap_or("").to_string(), &c));
+                        }
+                    }
+                    Err(_) => ev.note(format!("wreal ids: unreadable output {:?}", line.chars().take(200).collect::<String>())),
+                }
+            }
+            Err(e) => ev.note(format!("wreal ids could not be started: {}", e)),
+        }
+    } else {
+        ev.note("harness-par-real/wreal not built: the parallel iterators were not explored");
     }
     ev.sample(json!({"collection": "types", "history": ["add 1", "delete #1", "add 1", "add 0"]}));
     ev.sample(json!({"collection": "globals", "history": ["add 0", "add 1", "delete #0", "add 0", "delete #1"]}));
